@@ -5,6 +5,7 @@ import (
 	"fmt"
 	"reflect"
 	"runtime"
+	"strings"
 	"sync"
 
 	"github.com/bytedance/sonic"
@@ -23,19 +24,32 @@ type C08Case struct {
 }
 
 type C08Op struct {
-	Op string `json:"op"` // marshal | unmarshal | valid | get | pretouch | pretouchmany | gc | yield
+	Op string `json:"op"` // marshal | unmarshal | valid | get | pretouch | pretouchmany | gc | yield | marshalbad | marshalhtml | marshalnested | marshalbig
 	T  int    `json:"t"`
 }
 
 func init() { register("C08", func() Case { return &C08Case{} }) }
 
-var c08Ops = []string{"marshal", "marshal", "unmarshal", "unmarshal", "valid", "get", "pretouch", "pretouchmany", "gc", "yield"}
+var c08Ops = []string{"marshal", "marshal", "unmarshal", "unmarshal", "valid", "get", "pretouch", "pretouchmany", "gc", "yield", "marshalbad", "marshalhtml", "marshalnested", "marshalbig"}
+
+// c08Nested re-enters the encoder from inside a Marshaler: two pooled encoder buffers are live at once on one goroutine.
+type c08Nested struct{ V interface{} }
+
+func (n c08Nested) MarshalJSON() ([]byte, error) {
+	in, err := sonic.ConfigStd.Marshal(n.V)
+	if err != nil {
+		return nil, err
+	}
+	return append(append([]byte(`{"in":`), in...), '}'), nil
+}
+
+var c08HTML = sonic.Config{EscapeHTML: true, SortMapKeys: true}.Froze()
 
 func drawC08(t *rapid.T) Case {
 	c := &C08Case{}
 	k := rapid.IntRange(1, 4).Draw(t, "ntypes")
 	for i := 0; i < k; i++ {
-		tvv, _, _ := drawTypedValue(t, gen.TypeOpt{Flav: gen.FlavRoundTrip, Fresh: true, MaxDepth: 2, MaxFields: 4}, gen.ValOpt{RoundTrip: true, HTMLFree: true})
+		tvv, _, _ := drawTypedValue(t, gen.TypeOpt{Flav: gen.FlavRoundTrip, Fresh: true, MaxDepth: 2, MaxFields: 4}, gen.ValOpt{RoundTrip: true, HTMLFree: true, InvalidUTF8: rapid.Bool().Draw(t, "badutf8")})
 		c.Types = append(c.Types, tvv)
 	}
 	g := rapid.IntRange(2, 8).Draw(t, "goroutines")
@@ -62,6 +76,20 @@ func c08Do(op C08Op, ty reflect.Type, v reflect.Value, doc []byte) c08Result {
 	switch op.Op {
 	case "marshal":
 		b, err := sonic.ConfigStd.Marshal(v.Interface())
+		return c08Result{string(b), err != nil}
+	case "marshalbad":
+		// ValidateString repairs invalid UTF-8 in a second buffer (the pooled buffers are swapped)
+		b, err := sonic.ConfigStd.Marshal([]interface{}{"bad\xff" + strings.Repeat("y\xc0", op.T*7), v.Interface()})
+		return c08Result{string(b), err != nil}
+	case "marshalhtml":
+		b, err := c08HTML.Marshal([]interface{}{"<" + strings.Repeat("&>", op.T*9), v.Interface()})
+		return c08Result{string(b), err != nil}
+	case "marshalnested":
+		b, err := sonic.ConfigStd.Marshal([]interface{}{c08Nested{v.Interface()}, "tail\xfe", c08Nested{[]interface{}{c08Nested{op.T}}}})
+		return c08Result{string(b), err != nil}
+	case "marshalbig":
+		// output beyond the size the buffer pool keeps
+		b, err := sonic.ConfigStd.Marshal([]interface{}{strings.Repeat("big\xff", 3000+op.T), v.Interface()})
 		return c08Result{string(b), err != nil}
 	case "unmarshal":
 		dst := reflect.New(ty)
@@ -176,6 +204,18 @@ func (c *C08Case) Run() (res stat.Result) {
 			res.NonTrivial = true
 			res.Classes = append(res.Classes, "first-use-race")
 		}
+	}
+	pooled := 0
+	for g := range c.Gs {
+		for _, op := range c.Gs[g] {
+			if strings.HasPrefix(op.Op, "marshal") && op.Op != "marshal" {
+				pooled++
+				break
+			}
+		}
+	}
+	if pooled >= 2 {
+		res.Classes = append(res.Classes, "pool-swap-race")
 	}
 	res.Classes = append(res.Classes, fmt.Sprintf("goroutines=%d", len(c.Gs)))
 	if len(c.Prewarm) > 0 {
